@@ -131,7 +131,9 @@ def _view(cell, targets):
         return cell.branch(b).comp(c)
     if len(bs) == 1:
         return cell.branch(bs[0]).comp([c for b, c in targets])
-    raise ValueError("targets of one call must lie in one branch")
+    # compartments of several branches, in the GIVEN order (select keeps the order it is given: row r of the waveform belongs to
+    # the r-th listed compartment)
+    return cell.select(nodes=[gidx(b, c) for b, c in targets])
 
 
 def run_integrate(sc: Scenario, fns=None, checkpoint_lengths=None, return_states=False, all_states=None, **kw):
@@ -241,6 +243,8 @@ def scenarios(tier):
         [("static", [(2, 1)], "a"), ("data", [(0, 0)], "b")],                       # static + data on different compartments
         [("static", [(0, 1)], "a"), ("static", [(0, 1)], "b")],                     # two stimuli on one compartment
         [("data", [(2, 0)], "a"), ("data", [(0, 0), (0, 1)], "b")],
+        [("static", [(2, 1), (0, 1), (1, 0)], "a")],                                # a select() view in non-ascending order, one row per compartment
+        [("data", [(2, 0), (0, 0)], "a"), ("static", [(1, 0), (0, 1)], "b")],
     ]
     clamp_sets = [
         [],
